@@ -195,7 +195,8 @@ async fn run_case(seed: u64, idx: u64, world: &[Node], thorough: bool) -> Outcom
                                 let mut tries = 0;
                                 while recs.len() < want && tries < 200 {
                                     tries += 1;
-                                    let j = rng.below(world.len() as u64) as usize;
+                                    // half of the time look among the routing-table entries first
+                                    let j = if !table.is_empty() && tries < 60 && rng.chance(1, 2) { *rng.pick(&table) } else { rng.below(world.len() as u64) as usize };
                                     let d = log2d(&world[j].id, &pid);
                                     if distances.contains(&d) && !recs.iter().any(|r| r.node_id().raw() == world[j].id) {
                                         recs.push(world[j].enr.clone());
@@ -232,8 +233,9 @@ async fn run_case(seed: u64, idx: u64, world: &[Node], thorough: bool) -> Outcom
         settle().await;
         // now and then a routing-table entry that the lookup has been told about, but has not asked
         // yet, leaves the table (the user removes it): the lookup keeps its own copy of the record
-        if rng.chance(1, 8) {
+        if rng.chance(1, 3) {
             if let Some(j) = table.iter().cloned().find(|j| reported.contains(j) && !asked.contains(j) && !removed.contains(j)) {
+                script.push("a reported table entry leaves the table before it is asked".into());
                 let _ = svc.discv5.remove_node(&world[j].enr.node_id());
                 removed.push(j);
                 settle().await;
@@ -358,6 +360,9 @@ pub fn main(args: &[String]) {
             sum.distinct_nontrivial += 1;
         }
         sum.hist.add(if out.nontrivial { "lookup:asked_two_or_more_peers" } else { "lookup:asked_fewer_than_two_peers" });
+        if out.script.iter().any(|x| x.contains("leaves the table before it is asked")) {
+            sum.hist.add("lookup:reported_table_entry_removed_before_it_was_asked");
+        }
         if out.script.iter().any(|x| x.contains("query timeout of 30 ms")) {
             sum.hist.add("lookup:cut_off_by_a_real_time_query_timeout_and_result_delivered");
         }
